@@ -117,9 +117,10 @@ fn emit_system(ctx: &mut Ctx, id: u64, tasks: &[Value], family: &str, variant: &
                        "R": claims[i], "cap": cap}));
     }
     // keep individual state spaces tractable (stated in the evidence): bounded pending-job backlog
-    let (rmax, backlog) = if ctx.thorough { (45, 8) } else { (22, 5) };
+    let (rmax, backlog, budget) = if ctx.thorough { (45, 7, 6.0e6) } else { (22, 5, 1.5e6) };
     let total_cap: u64 = ts.iter().map(|t| u(&t["cap"]) - 1).sum();
-    if claims.iter().any(|r| *r > rmax) || total_cap > backlog {
+    let est = crate::drivers::ros2sys::state_estimate(&ts, &supply) * (ts.iter().map(|t| u(&t["C"])).sum::<u64>() as f64);
+    if claims.iter().any(|r| *r > rmax) || total_cap > backlog || est > budget {
         return;
     }
     let nontrivial = (0..n).any(|i| claims[i] > u(&tasks[i]["C"]) as i64);
